@@ -853,9 +853,9 @@ def smuon_distance(it, f, pole):
     return z3.If(d >= 0, d, -d)
 
 def achieved_precision_contract(name, cnt):
-    """callee contract shared by convert_me2_fpi_modify (PROVED: C05.loop_contract.convert_me2_fpi_modify) and convert_me2_root_modify (ASSUMED: boost's
-    TOMS748 root finder and a local functor class are outside the extractor): writes me2(1,1), MSm, ZM; returns DBL_MAX or the distance of the
-    right-like smuon of the resulting spectrum from its pole mass"""
+    """callee contract shared by convert_me2_fpi_modify (PROVED: C05.loop_contract.convert_me2_fpi_modify) and convert_me2_root_modify (PROVED:
+    C05.achieved_precision.convert_me2_root_modify, with boost's TOMS748 root finder by an assumed contract): writes me2(1,1), MSm, ZM; returns DBL_MAX or the
+    distance of the right-like smuon of the resulting spectrum from its pole mass"""
     def stub(it, a, this):
         cnt[0] += 1
         this.f['me2'].set(1, 1, z3.Real('me2!%s!%d' % (name, cnt[0])))
@@ -898,11 +898,11 @@ def make_wrapper(wrapper, callee, assumed):
         ctx.record('paths', PROVED if len(ps) >= 2 else FAILED, 'B', 0, '%d paths' % len(ps))
         if assumed:
             ctx.assume_note('ASSUMED callee contract: %s returns DBL_MAX or the distance of the resulting right-like smuon from its pole mass (boost TOMS748 + local functor class: outside the extractor)' % callee)
-    ob.__doc__ = ob.__doc__ % (callee, ' -- ASSUMED' if assumed else ', proved by C05.loop_contract.' + callee)
+    ob.__doc__ = ob.__doc__ % (callee, ' -- ASSUMED' if assumed else ', proved by C05.%s.%s' % ('loop_contract' if 'fpi' in callee else 'achieved_precision', callee))
     return ob
 
 make_wrapper('convert_me2_fpi', 'convert_me2_fpi_modify', False)
-make_wrapper('convert_me2_root', 'convert_me2_root_modify', True)
+make_wrapper('convert_me2_root', 'convert_me2_root_modify', False)
 
 @obligation('C05.warn_or_fit.me2.spectrum', fns=[(OS, 'MSSMNoFV_onshell::convert_me2')], replay=lambda m, wd: sweep_replay(m, wd))
 def _(ctx):
@@ -944,3 +944,56 @@ def _(ctx):
 from contracts.shared import reregister as _rr_static
 from contracts import c19 as _c19_static
 _rr_static('C05', 'C19', 'C19.no_stateful_local_statics', 'C05.lemma.no_state_between_calls', replay=None)
+
+# ---- the root-finder variant: convert_me2_root_modify under contract (only boost's TOMS748 itself stays assumed) ------------------------------------------
+def functional_smuon_stubs():
+    """callee contract of calculate_MSm for the root-finder variant: MSm and ZM are (uninterpreted) FUNCTIONS of the parameters the smuon mass matrix reads, so the
+    copy of the model inside the local functor and the model itself have the same spectrum for the same mse2(2,2)"""
+    def calc_MSm(it, a, this):
+        f = this.f
+        ye = f['Ye'].get(1, 1)
+        tye = f['TYe'].get(1, 1)
+        pars = [z3real(f['me2'].get(1, 1)), z3real(f['ml2'].get(1, 1)), z3real(f['vd']), z3real(f['vu']), z3real(f['g1']), z3real(f['g2']), z3real(f['Mu']),
+                z3real(ye.re if isinstance(ye, Cx) else ye), z3real(ye.im if isinstance(ye, Cx) else 0), z3real(tye.re if isinstance(tye, Cx) else tye), z3real(tye.im if isinstance(tye, Cx) else 0)]
+        U = lambda n: _spec_fn(n, len(pars))(*pars)
+        f['MSm'] = Mat(2, 1, [[U('MSm_fn_%d' % i)] for i in range(2)], 'array', False)
+        f['ZM'] = Mat(2, 2, [[U('ZM_fn_%d%d' % (i, j)) for j in range(2)] for i in range(2)], 'matrix', False)
+        return None
+    return {'MSSMNoFV_onshell_mass_eigenstates::calculate_MSm': calc_MSm, 'calculate_MSm': calc_MSm}, calc_MSm
+
+@obligation('C05.achieved_precision.convert_me2_root_modify', fns=[(OS, 'MSSMNoFV_onshell::convert_me2_root_modify'), (OS, 'Difference_MSm::operator()'), (OS, 'find_right_like_smuon')],
+            replay=lambda m, wd: sweep_replay(m, wd))
+def _(ctx):
+    """ensures (precondition: the smuon spectrum is up to date; ASSUMED: boost::math::tools::toms748_solve returns a bracket (a, b) or throws std::exception, and touches
+    the model only through the COPY held by the functor it is given): the value returned is exactly |MSm(k) - sorted pole mass(k)| of the spectrum the function leaves
+    behind, k = find_right_like_smuon(final ZM) -- on the path where the root finder throws as well (mse2(2,2) is then unchanged).  The local functor class
+    Difference_MSm (copy of the model, operator()) is real code executed symbolically; calculate_MSm by the contract 'the smuon spectrum is a function of the
+    parameters of its mass matrix'"""
+    goal, maxit = z3.Real('precision_goal'), z3.Real('max_iterations')
+    stubs, calc = functional_smuon_stubs()
+    stubs.update(flag_stubs(None))
+    def toms(it_, a, t):
+        if it_.decide(UnknownBool()):
+            raise Thrown('std::exception', 'root finder failed')
+        return (z3.Real('bracket_lo'), z3.Real('bracket_hi'))
+    stubs['boost::math::tools::toms748_solve'] = toms
+    stubs['toms748_solve'] = toms
+    it = Interp(ctx.w, mode='sym', stubs=stubs, div_sides=False)
+    def thunk():
+        m = model(it)
+        m.f['verbose_output'] = False
+        calc(it, [], m)
+        r = it.call_method(m, 'convert_me2_root_modify', [goal, maxit])
+        return (r, smuon_distance(it, m.f, m.f['physical'].f['MSm']), deep_copy(m.f['me2']))
+    ps = it.run_paths(thunk, max_paths=200)
+    ctx.merge_rules(it)
+    ctx.assume_note('ASSUMED callee contract: boost::math::tools::toms748_solve(f, a, b, tol, it) returns a pair or throws std::exception; it evaluates only the functor copy it is given')
+    n = 0
+    for j, (s, r, e) in enumerate(ps):
+        if e is not None:
+            ctx.record('path%d' % j, FAILED, 'B', 0, 'exception %s escapes' % e)
+            continue
+        ret, d, me2 = r
+        n += 1
+        ctx.prove('path%d.returns_distance_of_final_spectrum' % j, list(s.pc) + list(s.axioms), z3real(ret) == d, check_vacuity=False)
+    ctx.record('paths', PROVED if n >= 4 else FAILED, 'B', 0, '%d paths (root found / root finder throws) x (right-like smuon index 0 / 1 ...)' % n)
